@@ -23,23 +23,36 @@ Definition scanned (rec:bool) (locs:list path) (p:path) : bool :=
 
 (* s_locs / s_rec: the configured version locations and recursive_version_locations; s_vp: the directory asked for
    (version_path if given, else the directory alembic derives: the first head's, or the only location) *)
+(* s_tpl / s_msg / s_trunc: file_template as pieces, the message, truncate_slug_length; s_words / s_lower: the characters of the
+   message that match \w, and the lower-casing of those that change (finite tables of the two Unicode oracles) *)
 Record step := mkStep { s_rev : frev; s_id : str; s_down : list str; s_labels : list str; s_deps : list str;
-                        s_nonprint : list N; s_doc : str; s_locs : list path; s_rec : bool; s_vp : path }.
+                        s_nonprint : list N; s_doc : str; s_locs : list path; s_rec : bool; s_vp : path;
+                        s_tpl : list tpiece; s_msg : str; s_trunc : nat; s_words : list N; s_lower : list (N * str) }.
 Definition accepts (s:step) : bool := accept_path (s_locs s) (s_vp s).
+(* the name _rev_path gives the file *)
+Definition step_file (s:step) : str :=
+  rev_filename (word_of (s_words s)) (lower_of (s_lower s)) (s_tpl s) (s_id s) (s_msg s) (s_trunc s).
 Definition c17_in := list step.
 
 (* what was observed after the call: the four identifier lines of the written file; the loaded Script has the
    requested attributes; the module could be imported; the in-memory map and a freshly loaded one *)
 (* so_rejected: the call raised CommandError; so_file_left: a new file exists although it did; so_dir: where the file went *)
 Record step_out := mkSO { so_header : str; so_loaded : bool; so_module_ok : bool; so_views : option (view * view);
-                          so_rejected : bool; so_file_left : bool; so_dir : path }.
-Definition rejected_out : step_out := mkSO [] false false None true false [].
+                          so_rejected : bool; so_file_left : bool; so_dir : path; so_file : str }.
+Definition rejected_out : step_out := mkSO [] false false None true false [] [].
 Definition c17_out := list step_out.
 
 Definition step_fields (s:step) : fields := mkFields (s_id s) (s_down s) (s_labels s) (s_deps s).
 Definition fields_eqb (a b:fields) : bool :=
   str_eqb (fd_rev a) (fd_rev b) && list_eqb str_eqb (fd_down a) (fd_down b) && list_eqb str_eqb (fd_labels a) (fd_labels b)
   && list_eqb str_eqb (fd_deps a) (fd_deps b).
+
+(* the files written by the accepted calls: directory and name; no two calls may write the same file *)
+Definition out_files (o:c17_out) : list (path * str) :=
+  map (fun x => (so_dir x, so_file x)) (filter (fun x => negb (so_rejected x)) o).
+Definition file_eqb (a b : path * str) : bool := path_eqb (fst a) (fst b) && str_eqb (snd a) (snd b).
+Fixpoint files_nodupb (l:list (path * str)) : bool :=
+  match l with [] => true | x :: r => negb (existsb (file_eqb x) r) && files_nodupb r end.
 
 (* ---------------------------------------------------------------- the model on a sequence *)
 Definition res_view (r:mres rmap) : option view := match r with MOk L => Some (view_of L) | MErr _ => None end.
@@ -48,17 +61,27 @@ Definition model_step (printable:N -> bool) (mem:mres rmap) (G:hist) (s:step) : 
   let ok := doc_ok (s_doc s) [] in
   (mkSO (write_header printable (mk_args (s_id s) (s_down s) (s_labels s) (s_deps s))) ok ok
         (if ok then match res_view mem', res_view (load (G ++ [s_rev s])) with Some a, Some b => Some (a, b) | _, _ => None end else None)
-        false false (s_vp s),
+        false false (s_vp s) (step_file s),
    mem').
-Fixpoint model_steps (mem:mres rmap) (G:hist) (l:list step) : c17_out :=
+(* a file whose name the loader skips: it is written, Script._from_path returns None, nothing is added to either map *)
+Definition skipped_out (printable:N -> bool) (mem:mres rmap) (G:hist) (s:step) : step_out :=
+  mkSO (write_header printable (mk_args (s_id s) (s_down s) (s_labels s) (s_deps s))) false true
+       (match res_view mem, res_view (load G) with Some a, Some b => Some (a, b) | _, _ => None end)
+       false false (s_vp s) (step_file s).
+Definition has_views (o:step_out) : bool := match so_views o with Some _ => true | None => false end.
+(* fs: the files written so far.  A call that would write one of them again overwrites a revision file: the model makes no
+   statement about it or anything after it (it stops); the decider still sees the repeated file in the real output *)
+Fixpoint model_steps (mem:mres rmap) (G:hist) (fs:list (path * str)) (l:list step) : c17_out :=
   match l with
   | [] => []
-  | s :: r => if negb (accepts s) then rejected_out :: model_steps mem G r      (* CommandError: nothing written, nothing changed *)
+  | s :: r => if negb (accepts s) then rejected_out :: model_steps mem G fs r      (* CommandError: nothing written, nothing changed *)
+              else if existsb (file_eqb (s_vp s, step_file s)) fs then []
+              else if negb (loadable_name (step_file s)) then [skipped_out (printable_of (s_nonprint s)) mem G s]
               else
               let (o, mem') := model_step (printable_of (s_nonprint s)) mem G s in
-              o :: (if so_module_ok o then model_steps mem' (G ++ [s_rev s]) r else [])
+              o :: (if so_module_ok o && has_views o then model_steps mem' (G ++ [s_rev s]) ((s_vp s, step_file s) :: fs) r else [])
   end.
-Definition model_C17 (i:c17_in) : c17_out := model_steps (load []) [] i.
+Definition model_C17 (i:c17_in) : c17_out := model_steps (load []) [] [] i.
 
 (* ---------------------------------------------------------------- exact comparison *)
 Definition oviews_eqb (a b:option (view*view)) : bool :=
@@ -70,30 +93,35 @@ Definition oviews_eqb (a b:option (view*view)) : bool :=
 Definition step_out_eqb (a b:step_out) : bool :=
   str_eqb (so_header a) (so_header b) && Bool.eqb (so_loaded a) (so_loaded b) && Bool.eqb (so_module_ok a) (so_module_ok b)
   && oviews_eqb (so_views a) (so_views b) && Bool.eqb (so_rejected a) (so_rejected b) && Bool.eqb (so_file_left a) (so_file_left b)
-  && path_eqb (so_dir a) (so_dir b).
-Definition corr_C17 (i:c17_in) (o:c17_out) : bool := list_eqb step_out_eqb (model_C17 i) o.
+  && path_eqb (so_dir a) (so_dir b) && str_eqb (so_file a) (so_file b).
+Definition in_files (i:c17_in) : list (path * str) := map (fun s => (s_vp s, step_file s)) (filter accepts i).
+(* exact on everything the model states: the whole output, or its prefix up to an overwriting call *)
+Definition corr_C17 (i:c17_in) (o:c17_out) : bool :=
+  let m := model_C17 i in
+  list_eqb step_out_eqb m (firstn (length m) o) && (Nat.eqb (length m) (length o) || negb (files_nodupb (in_files i))).
 
 (* ---------------------------------------------------------------- the property *)
 (* a rejected call leaves nothing behind; an accepted one wrote into a directory that a reload scans, the file
    reads back as requested, and the in-memory map equals the reloaded one *)
 Definition step_holds (s:step) (o:step_out) : Prop :=
   if so_rejected o then so_file_left o = false else
-  scanned (s_rec s) (s_locs s) (so_dir o) = true /\
+  scanned (s_rec s) (s_locs s) (so_dir o) = true /\ loadable_name (so_file o) = true /\
   read_header (so_header o) = Some (step_fields s) /\ so_loaded o = true /\ so_module_ok o = true /\
   exists a b, so_views o = Some (a, b) /\ view_eqb a b = true.
-Definition C17_holds (i:c17_in) (o:c17_out) : Prop := Forall2 step_holds i o.
+Definition C17_holds (i:c17_in) (o:c17_out) : Prop := Forall2 step_holds i o /\ files_nodupb (out_files o) = true.
 
 Definition check_step (s:step) (o:step_out) : bool :=
   if so_rejected o then negb (so_file_left o) else
-  scanned (s_rec s) (s_locs s) (so_dir o) &&
+  scanned (s_rec s) (s_locs s) (so_dir o) && loadable_name (so_file o) &&
   match read_header (so_header o) with Some f => fields_eqb f (step_fields s) | None => false end
   && so_loaded o && so_module_ok o && match so_views o with Some (a, b) => view_eqb a b | None => false end.
-Fixpoint check_C17 (i:c17_in) (o:c17_out) : bool :=
+Fixpoint check_steps (i:c17_in) (o:c17_out) : bool :=
   match i, o with
   | [], [] => true
-  | s :: i', x :: o' => check_step s x && check_C17 i' o'
+  | s :: i', x :: o' => check_step s x && check_steps i' o'
   | _, _ => false
   end.
+Definition check_C17 (i:c17_in) (o:c17_out) : bool := check_steps i o && files_nodupb (out_files o).
 
 (* ---------------------------------------------------------------- the class the theorems cover *)
 Definition hist_ids (G:hist) : list N := map f_id G.
@@ -108,4 +136,6 @@ Fixpoint wf_hist_from (G:hist) (l:list frev) : bool :=
 Definition strs_valid (l:list str) : bool := forallb valid_strb l.
 Definition step_class (s:step) : bool :=
   valid_strb (s_id s) && strs_valid (s_down s) && strs_valid (s_labels s) && strs_valid (s_deps s) && doc_safe (s_doc s).
-Definition inclass_C17 (i:c17_in) : bool := wf_hist_from [] (map s_rev (filter accepts i)) && forallb step_class i.
+(* the files the accepted calls are going to write have names the loader accepts and are pairwise different *)
+Definition names_class (i:c17_in) : bool := forallb (fun f => loadable_name (snd f)) (in_files i) && files_nodupb (in_files i).
+Definition inclass_C17 (i:c17_in) : bool := wf_hist_from [] (map s_rev (filter accepts i)) && forallb step_class i && names_class i.
